@@ -387,6 +387,10 @@ def run_task(desc):
                     b"HTTP/1.1 407 Proxy Authentication Required\r\nContent-Length: 99999999999\r\n\r\nbody", b"HTTP/1.1 407 X\r\nContent-Length: -1\r\n\r\n",
                     b"HTTP/1.1 204 No Content\r\n\r\n", b"HTTP/1.1 299 Odd\r\n\r\n", b"HTTP/1.1 2e2 OK\r\n\r\n", b"HTTP/1.1 -200 OK\r\n\r\n", b"HTTP/1.1 \xb2\xb0\xb0 OK\r\n\r\n",
                     b"HTTP/1.1 200 OK\r\n" + b"A" * 5000 + b": v\r\n\r\n", b"200\r\n\r\n", b" \r\n\r\n", b"HTTP/1.1 301 Moved\r\nLocation: ws://h/\r\n\r\n"]
+        for code in (200, 407):
+            for spell, cls in HS.numeric_spellings(code):
+                specials.append(b"HTTP/1.1 " + spell + b" Reason\r\n\r\n")
+                specials.append(b"HTTP/1.1 " + spell + b"\r\n\r\n")
         for i in range(len(ok)):
             for m in [1 << b for b in range(8)]:
                 specials.append(ok[:i] + bytes([ok[i] ^ m]) + ok[i + 1:])
@@ -439,6 +443,26 @@ def run_task(desc):
                     specials.append(b"HTTP/1.1 " + status + b" Reason\r\n" + b"".join(h + b"\r\n" for h in hdrs) + b"\r\n" + body)
         specials += [b"\r\n\r\n", b"\n\n", b"HTTP/1.1\r\n\r\n", b"HTTP/1.1 \r\n\r\n", b" \r\n\r\n", b"\xff\xff\r\n\r\n", b"HTTP/1.1 101\r\n\r\n",
                      b"HTTP/1.1 101 OK\r\n" * 3 + b"\r\n", b"A" * 5000 + b"\r\n\r\n", b"HTTP/1.1 301 Moved\r\n\r\n"]
+        # every numeric text field of a response (status code, Content-Length, port of a Location) in every spelling of the shared alphabet
+        numeric = []
+        for code in (101, 301, 404):
+            for sp, cls in HS.numeric_spellings(code):
+                for hdrs in ([], [b"Upgrade: websocket", b"Connection: Upgrade"], [b"Location: ws://h/"], [b"Content-Length: 5"]):
+                    for body in (b"", b"hello"):
+                        numeric.append(b"HTTP/1.1 " + sp + b" Reason\r\n" + b"".join(h + b"\r\n" for h in hdrs) + b"\r\n" + body)
+                numeric.append(b"HTTP/1.1 " + sp + b"\r\n\r\n")
+        for sp, cls in HS.numeric_spellings(5):
+            for status in (b"404", b"101", b"301"):
+                for body in (b"", b"hello"):
+                    numeric.append(b"HTTP/1.1 " + status + b" Reason\r\nContent-Length: " + sp + b"\r\n\r\n" + body)
+        for sp, cls in HS.numeric_spellings(80):
+            numeric.append(b"HTTP/1.1 301 Moved\r\nLocation: ws://h:" + sp + b"/x\r\n\r\n")
+            numeric.append(b"HTTP/1.1 301 Moved\r\nLocation: wss://[::1]:" + sp + b"\r\n\r\n")
+        for s in numeric:
+            for ending in ENDINGS:
+                n += 1
+                rec(guarded(hs_case, s, ending, None), {"case": "hs", "resp": s, "ending": ending, "rl": None})
+        res["samples"].append({"numeric_field_spellings": len(numeric)})
         for s in specials:
             for ending in ENDINGS + MORE_ENDINGS:
                 for rl in ((None, 0) if ending in ENDINGS else (None,)):
